@@ -187,6 +187,21 @@ theorem rdWave_stim (l : Int) (c : Nat) (m : Int → T) (i f : Bool) (t : Int)
   rw [← List.take_append_drop 3 (cells l c m), h]
   exact scan_stim i f t _
 
+theorem stimWave_ok (i f : Bool) (t : Int) : (stimWave i t f).ok := by
+  cases i <;> cases f <;> simp [stimWave, Wv.ok, WfRem, T.isFin, T.isTerm]
+
+/-- a region whose first cell is `TMAX` reads as the empty waveform (constant 0) -/
+theorem rdWave_tmax_head (l : Int) (c : Nat) (m : Int → T) (h : (cells l c m).head? = some T.tmax) :
+    rdWave l c m = Wv.empty := by
+  unfold rdWave
+  cases hc : cells l c m with
+  | nil => rw [hc] at h; cases h
+  | cons x r =>
+    rw [hc] at h
+    simp only [List.head?_cons, Option.some.injEq] at h
+    subst h
+    rfl
+
 /-- freshly initialised memory (`self.c = zeros + TMAX`) reads as the empty waveform everywhere -/
 theorem rdWave_fresh (l : Int) (c : Nat) : rdWave l c (fun _ => T.tmax) = Wv.empty := by
   unfold rdWave cells
@@ -232,5 +247,32 @@ theorem Wv.aff_ok (k s : Int) {w : Wv} (h : w.ok) : (w.aff k s).ok := by
     · exact Or.inr (by rw [T.aff_isFin]; exact hf)
   · show (w.term.aff k s).isTerm = true
     rw [T.aff_isTerm]; exact h3
+
+/-! ### extremal entries (for the captured earliest arrival / latest stabilisation) -/
+
+theorem foldl_min_mem (l : List T) (a : T) : l.foldl T.min a = a ∨ l.foldl T.min a ∈ l := by
+  induction l generalizing a with
+  | nil => exact Or.inl rfl
+  | cons x r ih =>
+    simp only [List.foldl_cons, List.mem_cons]
+    rcases ih (T.min a x) with h | h
+    · rw [h]
+      rcases T.min_cases a x with e | e
+      · exact Or.inl e
+      · exact Or.inr (Or.inl e)
+    · exact Or.inr (Or.inr h)
+
+theorem foldl_max_mem (l : List T) (a : T) : l.foldl T.max a = a ∨ l.foldl T.max a ∈ l := by
+  induction l generalizing a with
+  | nil => exact Or.inl rfl
+  | cons x r ih =>
+    simp only [List.foldl_cons, List.mem_cons]
+    rcases ih (T.max a x) with h | h
+    · rw [h]
+      unfold T.max
+      split
+      · exact Or.inr (Or.inl rfl)
+      · exact Or.inl rfl
+    · exact Or.inr (Or.inr h)
 
 end KV.Wave
